@@ -92,18 +92,18 @@ def _binds(ip, func, args, kwargs):
 
 def _forall(ip, n, fn):
     """forall_idx(n, lambda j: P(j)):  for every 0 <= j < n, P(j)."""
-    from .comp import merged_bool, value_key
+    from .comp import merged_bool, value_key, tid
     nn = ip.as_int(n)
     if nn is None:
         raise Unsupported("forall_idx bound")
     mode = getattr(ip, "clause_mode", "goal")
     if mode == "assume":
         def fact(j, ip=ip, fn=fn, nn=nn):
-            body = merged_bool(ip, lambda sub: sub.call(fn, [ZInt(j)], {}), ("forall", value_key(fn), j.get_id()))
+            body = merged_bool(ip, lambda sub: sub.call(fn, [ZInt(j)], {}), ("forall", value_key(fn), tid(j)))
             return z3.Implies(z3.And(j >= 0, j < nn), body)
         ip.path.add_qfact(fact)
         return C(True)
     j = V.fresh("sk", V.I)
     insts = ip.path.instances(j)
-    body = merged_bool(ip, lambda sub: sub.call(fn, [ZInt(j)], {}), ("forall", value_key(fn), j.get_id()))
+    body = merged_bool(ip, lambda sub: sub.call(fn, [ZInt(j)], {}), ("forall", value_key(fn), tid(j)))
     return ZBool(z3.Implies(z3.And([j >= 0, j < nn] + insts), body))
